@@ -697,6 +697,48 @@ class FnCall(EvalArm):
         return entry, [lf.var for lf in self._leaves], self._leaves, native_of
 
 
+def uf_apps_of(terms):
+    """all applications of uninterpreted library functions (arity > 0) in the given terms"""
+    seen = set(); out = []
+    stack = [t for t in terms if is_sym(t)]
+    while stack:
+        t = stack.pop()
+        if t.get_id() in seen: continue
+        seen.add(t.get_id())
+        if z3.is_app(t):
+            if t.decl().kind() == z3.Z3_OP_UNINTERPRETED and t.num_args() > 0 and t.decl().name().startswith(('uf_', 'R64', 'wrapped_pow', 'cx_')): out.append(t)
+            stack.extend(t.children())
+    return out
+
+
+def refined_model(e, runner, extra_conds, tries=8):
+    """a model of the engine's path condition and extra_conds in which every uninterpreted library function has its real value
+    (each application is recomputed natively and asserted as a lemma until the model agrees); None when none is found"""
+    lemmas = []
+    pcs = e.path_condition() + [c for c in extra_conds if is_sym(c)]
+    apps = uf_apps_of(pcs)
+    for attempt in range(tries):
+        if e.check(*(list(extra_conds) + lemmas)) != z3.sat: return None
+        m = e.solver.model()
+        cz = Concretizer(m, runner)
+        if not apps: return m, cz
+        okc = True
+        try:
+            for c in pcs:
+                if not cz.bool(c): okc = False; break
+        except Unsupported:
+            okc = True
+        if okc: return m, cz
+        for app in apps:
+            try:
+                argv = [cz.ev(x) for x in app.children()]
+                real = cz.apply_uf(app.decl().name(), argv, app)
+                lemmas.append(z3.Implies(z3.And([x == v for x, v in zip(app.children(), argv)]), app == real))
+            except Exception:
+                pass
+    return None
+
+
 F64_POOL = [0.0, 1.0, -1.0, 2.0, 0.5, 1.1, 5.0, 100.0, 1e18, 1e308, float('inf'), float('-inf'), float('nan'), -0.0, 1e-300, 171.0, 1e10]
 I64_POOL = [0, 1, -1, 2, 5, 63, 64, 100, 10 ** 18, I64_MAX, I64_MIN, 21, 1000000]
 
